@@ -19,8 +19,9 @@ type simNet struct {
 	users     map[string]*simUser // folded nick -> user (everyone on the network, incl. me)
 	joined    map[string]string   // folded chan -> spelling, channels I am in
 	modes     map[string]map[byte]string
-	prefixes  string // "(qaohv)~&@%+" or "(ov)@+"
-	chanmodes string // CHANMODES announced in 005
+	prefixes  string            // "(qaohv)~&@%+" or "(ov)@+"
+	chanmodes string            // CHANMODES announced in 005
+	layout    map[string]string // per channel: the CHANMODES in force when the client started tracking it
 	extJoin   bool
 	uhNames   bool
 	out       []string
@@ -106,6 +107,10 @@ func (n *simNet) joinMe(ch string) {
 	me.chans[c] = true
 	n.joined[c] = ch
 	n.modes[c] = map[byte]string{}
+	if n.layout == nil {
+		n.layout = map[string]string{}
+	}
+	n.layout[c] = n.chanmodes
 	if n.extJoin {
 		n.emit("%sJOIN %s %s :%s", n.src(me), ch, orStar(me.account), me.real)
 	} else {
@@ -212,6 +217,13 @@ func (n *simNet) step() {
 		c := chans[r.Intn(len(chans))]
 		return c, n.joined[c]
 	}
+	if r.Chance(3) && n.prefixes == "(ov)@+" {
+		// the server announces its supported modes again, changed (a services restart, a rehash): channels tracked from now on
+		// use the new classes
+		n.chanmodes = r.Pick([]string{"beI,k,l,imnpst", "eIbq,k,flj,CFLMPQScgimnprstuz", "beI,k,,imnpst", "b,k,l,"})
+		n.emit(":srv 005 %s CHANMODES=%s :are supported by this server", n.me, n.chanmodes)
+		return
+	}
 	switch r.Intn(16) {
 	case 0, 1:
 		if len(n.joined) < 3 {
@@ -309,7 +321,11 @@ func (n *simNet) step() {
 				flags.WriteByte(s)
 				sign = s
 			}
-			cls := strings.Split(n.chanmodes, ",")
+			lay := n.chanmodes
+			if l, ok := n.layout[c]; ok {
+				lay = l // a channel keeps the mode classes it was created with
+			}
+			cls := strings.Split(lay, ",")
 			pick := r.Intn(6)
 			// a network may announce an EMPTY class ("beI,k,,imnpst"): nothing to draw from it
 			if (pick == 0 && cls[3] == "") || (pick == 2 && cls[2] == "") || (pick == 3 && cls[0] == "") {
